@@ -570,8 +570,11 @@ Definition iter_write_ok (iter_params : list nat) (own_receiver : bool) (o : ori
 
 Definition iter_writes_ok (iter_params : list nat) (own_receiver : bool) (e : effect_record) : bool :=
   forallb (iter_write_ok iter_params own_receiver) (e_iter_writes e).
+(* the returned references are fresh, the fresh objects contain nothing non-fresh, and no fresh
+   object was also stored into non-fresh memory (which could then alias the result) *)
 Definition returns_only_fresh (e : effect_record) : bool :=
-  osubset (e_returns e) [Fresh] && is_nil (e_fresh_content e).
+  osubset (e_returns e) [Fresh] && is_nil (e_fresh_content e) &&
+  forallb (fun c => nonfresh (snd c)) (e_captures e).
 
 Definition of_slice_param (sp : list nat) (o : origin) : bool :=
   match o with
